@@ -251,17 +251,30 @@ pub fn summarise(results: &[JobResult], functions: &[&str], bounds: &str, cfg_no
     let mut jobs_done = 0;
     let mut classes: std::collections::BTreeMap<String, u64> = Default::default();
     let mut per_job: Vec<J> = vec![];
+    let mut sample_finished = 0i64;
+    let mut sample_total = 0i64;
     for r in results {
+        let is_sample = r.name.starts_with("[thorough-box sample]");
+        if is_sample {
+            sample_total += 1;
+            if r.ran && r.stats.incomplete.is_none() && r.engine_error.is_none() {
+                sample_finished += 1;
+            }
+        }
         if !r.ran {
-            not_run.push(J::s(&r.name));
+            if !is_sample {
+                not_run.push(J::s(&r.name));
+            }
             continue;
         }
         if let Some(e) = &r.engine_error {
             engine_errors.push(format!("{}: {}", r.name, e));
         }
         if let Some(why) = &r.stats.incomplete {
-            incomplete.push(J::s(&format!("{} ({})", r.name, why)));
-        } else if r.engine_error.is_none() {
+            if !is_sample {
+                incomplete.push(J::s(&format!("{} ({})", r.name, why)));
+            }
+        } else if r.engine_error.is_none() && !is_sample {
             jobs_done += 1;
         }
         paths += r.stats.paths;
@@ -321,7 +334,8 @@ pub fn summarise(results: &[JobResult], functions: &[&str], bounds: &str, cfg_no
         ("queries", J::I(queries as i64)),
         ("solver_s", J::F(solver_s)),
         ("solver", J::s(&crate::solver::solver_cmd())),
-        ("jobs_total", J::I(results.len() as i64)),
+        ("jobs_total", J::I(results.len() as i64 - sample_total)),
+        ("thorough_box_sample", J::obj(vec![("offered", J::I(sample_total)), ("finished", J::I(sample_finished))])),
         ("jobs_finished", J::I(jobs_done)),
         ("jobs_incomplete", J::A(incomplete)),
         ("jobs_not_run_budget_count", J::I(not_run.len() as i64)),
